@@ -226,7 +226,38 @@ pub fn run(p: &Params) -> Report {
         rep.nontrivial(fnv(&tx.hash_nosigs().0 .0));
         let mut st2 = st.clone();
         let txc = tx.clone();
-        let res = guarded(move || st2.apply_tx(&txc).map(|_| st2.seal(None).header().dosc_speed));
+        // in half of the cases the block goes on after the mint: an ordinary transfer in a second batch
+        let follow = if r.chance(1, 2) {
+            let mut f = Transaction {
+                kind: TxKind::Normal,
+                inputs: vec![other_id],
+                outputs: vec![CoinData { covhash: dest, value: CoinValue(coin_val), denom: Denom::Mel, additional_data: Bytes::new() }],
+                fee: CoinValue(0),
+                covenants: vec![Bytes::from(cov.clone())],
+                data: Bytes::new(),
+                sigs: vec![],
+            };
+            f.sigs = vec![Bytes::from(key.sk.sign(&f.hash_nosigs().0 .0))];
+            Some(f)
+        } else {
+            None
+        };
+        let had_follow = follow.is_some();
+        let res = guarded(move || {
+            st2.apply_tx(&txc).map(|_| {
+                if let Some(f) = follow {
+                    let _ = st2.apply_tx(&f);
+                }
+                let sealed = st2.seal(None);
+                let s1 = sealed.header().dosc_speed;
+                // and one empty block later it must not have gone down
+                let s2 = sealed.next_unsealed().seal(None).header().dosc_speed;
+                s1.min(s2)
+            })
+        });
+        if had_follow {
+            rep.count("blocks continued with a second batch after the mint");
+        }
         let erg_cls = match erg_choice {
             0 => "erg=reward+1",
             1 => "erg=reward",
